@@ -58,6 +58,18 @@ def hint_inputs():
     return [[f], [g], [f, g], [g, f], [fa, ga], [ga, fa], [G.GD(p=f)], [G.GD(p=[g, f])], [G.GB(one=g, many=[f, fa])]]
 
 
+def special_inputs():
+    """Falsy task objects (a sized task of length 0) wherever a task can sit, and task types whose
+    string annotations cannot be resolved from module globals."""
+    a = G.GA(x=1)
+    e0, e1 = G.GH(n=0, dep=a), G.GH(n=2, dep=[a])
+    out = [[e0], [e1], [G.GD(p=e0)], [G.GD(p=[e0])], [G.GD(p={'k': e0})], [G.GB(one=G.GH(n=0), many=[G.GH(n=0, dep=G.GD(p=a))])],
+           [G.GD(p=G.GH(n=0, dep=G.GH(n=0, dep=a)))], [G.GC(a=e0, b=e1)], [G.GD(p=e0), G.GD(p=[e1])]]
+    li = G.GLInner(x=1)
+    out += [[G.GL()], [G.GL(dep=li)], [G.GD(p=G.GL(dep=li))], [G.GB(one=li, many=[G.GL(dep=li)])], [G.GL(dep=li), li]]
+    return out
+
+
 def inputs(tier: str):
     l0 = [G.GA(x=1)]
     v0 = values(l0, l0)
@@ -66,7 +78,7 @@ def inputs(tier: str):
     v1_full = values(s1, l1)
     v1_small = values(s1, s1)
     l2 = level_tasks(v1_full, v1_small)
-    ins = hint_inputs() + [[t] for t in l1] + [[t] for t in l2]
+    ins = hint_inputs() + special_inputs() + [[t] for t in l1] + [[t] for t in l2]
     gb1 = [t for t in l1 if type(t) is G.GB]
     ins += [[a, b] for a in gb1 for b in gb1 if a is not b][:: (1 if tier != 'quick' else 3)]
     if tier != 'quick':
